@@ -644,8 +644,11 @@ class CHECK(Check):
         want = [sum(wid.get(t, F(0)) * hx[t][i] for t in range(T)) for i in range(nq)]
         p1 = [float(v) for v in o["pmf1"]]
         p0 = [float(v) for v in o["pmf0"]]
+        # eg_pmf_range_slack: 0 <= p <= sum(weights_); the LP step returns weights_ whose sum may exceed 1 by the solver's
+        # tolerance (seen 4.4e-9, accepted up to W_SUM_TOL by the hypothesis check above), so the range bound follows it
+        slack = TOL + float(min(max(sum(w) - 1, F(0)), W_SUM_TOL))
         for i in range(nq):
-            if not (-TOL <= p1[i] <= 1 + TOL and -TOL <= p0[i] <= 1 + TOL) or abs(p0[i] + p1[i] - 1) > TOL:
+            if not (-slack <= p1[i] <= 1 + slack and -slack <= p0[i] <= 1 + slack) or abs(p0[i] + p1[i] - 1) > TOL:
                 probs.append(Problem("property", f"row {i}: reported pmf ({p0[i]!r}, {p1[i]!r}) is not a distribution", "C10.eg_pmf_range"))
                 break
         for i in range(nq):
